@@ -3,7 +3,7 @@ from . import result as R, kernels as K, C01
 
 PROPERTY = "C09"
 META = {
-    "bounds": {"quick": "result level: one generic bin, XX,YY>=0 (zero included), |XY|^2<=XX*YY, S2,S12,fs>0, f>=0, n>=1 symbolic; kernel level (9 csd + 9 auto functions): L<=3, K<=2, N=L+2, symbolic data/window/omega: swap symmetry, auto-in-pair, coh=1 for K=1 and y=g*x, Cauchy-Schwarz direct for K=2 at L<=2; kernel->result composition at L=2,K=2",
+    "bounds": {"quick": "result level: one generic bin, XX,YY>=0 (zero included), |XY|^2<=XX*YY, S2,S12,fs>0, f>=0, n>=1 symbolic; kernel level (9 csd + 9 auto functions): L<=3, K<=2, N=L+2, symbolic data/window/omega: swap symmetry, auto-in-pair, coh=1 for K=1 and y=g*x, Cauchy-Schwarz direct for K=2 at L<=2; kernel->result composition at L=2,K=2; constructor level: the stored record of a channel alone = in a pair, N=3 samples per channel with symbolic finiteness flags, 2 layouts",
                "thorough": "kernel level up to L<=4, K<=3; Cauchy-Schwarz for K=3 through the Lagrange identity (identity and sum-of-squares each decided by the solver)"},
     "outside": ["IEEE rounding (coherence marginally above 1 in binary64 is outside the real-arithmetic claim)"],
     "stubs": C01.META["stubs"],
@@ -12,7 +12,8 @@ META = {
 
 
 def encoded_functions():
-    return R.encoded() + K.all_encoded()
+    import speckit.analysis as A
+    return R.encoded() + K.all_encoded() + [A.SpectrumAnalyzer.__init__]
 
 
 def _res(W, pos, extra_assume=None):
@@ -168,8 +169,35 @@ def ob_compose(W, backend, fam, L, starts, order, N):
     W.goal("chain/GyyCx+GyyRx=Gyy", W.eq(R.el(r.GyyCx) + R.el(r.GyyRx), R.el(r.Gyy)))
 
 
+def ob_record_alone_vs_pair(W, layout, N):
+    """the record a channel contributes to the analysis is the same whether it is handed over alone or as part of a pair
+    (constructor level: shape normalisation and sanitising, samples carry a symbolic finiteness flag as in C13)"""
+    from . import C13
+    import speckit.analysis as A
+    obj, ch = C13.build(W, layout, N)
+    if W.sym:
+        from symx.shim import clone_module
+        G = clone_module(A, dict(np=C13.C13Np()))
+        cls = G["SpectrumAnalyzer"]
+        alone = [C13._mk_sym(list(c), "C", "f8") for c in ch]
+    else:
+        import numpy as rnp
+        cls = A.SpectrumAnalyzer
+        data = rnp.asarray(obj, dtype=float)
+        d2 = data if data.shape[0] == 2 and data.shape[1] != 2 else (data.T if data.shape[1] == 2 and data.shape[0] != 2 else data)
+        alone = [rnp.array(d2[0]), rnp.array(d2[1])]
+    pair = cls(obj, 2.0, win="hann", olap=0.5)
+    singles = [cls(a, 2.0, win="hann", olap=0.5) for a in alone]
+    val = (lambda e: C13._fv_as_value(e) if isinstance(e, C13.FV) else e) if W.sym else float
+    for c, (st_pair, st_alone) in enumerate(zip([pair.x1, pair.x2], [singles[0].x1, singles[1].x1])):
+        for i in range(N):
+            W.goal("record of channel %d, sample %d: alone = in pair" % (c, i), W.eq(val(st_pair[i]), val(st_alone[i])))
+
+
 def obligations(tier):
     obs = [{"name": "result/bounds", "fn": "ob_result_bounds", "params": {}}, {"name": "result/coh1", "fn": "ob_result_coh1", "params": {}}]
+    for layout in ("2xN-C", "Nx2-C"):
+        obs.append({"name": "record/alone-vs-pair/%s" % layout, "fn": "ob_record_alone_vs_pair", "params": {"layout": layout, "N": 3}, "fork": True, "max_paths": 600, "weight": 10})
     for z in ("x", "y", "both"):
         obs.append({"name": "result/zero-%s" % z, "fn": "ob_result_zero", "params": {"which": z}})
     shapes = [(1, [0]), (2, [1]), (2, [0, 2]), (3, [2, 0])] + ([(3, [0, 1, 2]), (4, [0, 2]), (4, [1])] if tier == "thorough" else [])
